@@ -3,7 +3,7 @@
    (the machine refines the fold of the one-pass specification; queues hand out their batches in
    arrival order, once). *)
 From Coq Require Import String ZArith NArith List Bool Lia Permutation.
-Require Import PV.Base.Val PV.Model.DStreamRdd PV.Model.DStream PV.Proofs.DStream.
+Require Import PV.Base.Val PV.Gen.DStreamStep PV.Model.DStreamRdd PV.Model.DStream PV.Proofs.DStream.
 Import ListNotations.
 Open Scope Z_scope.
 
@@ -239,6 +239,21 @@ Proof.
   - destruct l as [|a l]; [discriminate|]. simpl in H. apply IH in H. exact H.
 Qed.
 
+(* QueueStream.get through the regenerated branch kernel, as a case analysis on the queue *)
+Lemma src_get_queue one dflt q0 ls s :
+  src_get (SQueue one dflt q0) ls s =
+    match queue s with
+    | [] => (match dflt with None => QNone | Some d => QRdd (parallelize d None) end, s)
+    | b :: q' =>
+        if one then (QList b, mkNs (ctime s) (crdd s) q' (fdone s))
+        else (QList (concat (queue s)), mkNs (ctime s) (crdd s) [] (fdone s))
+    end.
+Proof.
+  unfold src_get, queue_get_branch. destruct (queue s) as [|b q']; [reflexivity|].
+  replace (Z.of_nat (length (b :: q')) =? 0) with false by (symmetry; apply Z.eqb_neq; simpl; lia).
+  destruct one; reflexivity.
+Qed.
+
 (* ---------- a queue with oneAtATime=True hands out its batches one per interval, in order;
    afterwards the default (or an EmptyRDD) ---------- *)
 Theorem queue_in_order g i dflt q0 :
@@ -255,10 +270,10 @@ Proof.
   - simpl. rewrite nth_error_map, Hg. simpl. eexists; split; [reflexivity|]. split; auto. congruence.
   - destruct IH as [s [Hs [Hq _]]].
     rewrite spec_hist_snoc, (tick_spec_src g env t _ i _ s Hwf Hg Hs).
-    eexists; split; [reflexivity|]. rewrite app_length. simpl.
+    eexists; split; [reflexivity|]. rewrite app_length. cbn [length queue crdd].
     replace (length h + 1 - 1)%nat with (length h) by lia.
     replace (length h + 1)%nat with (S (length h)) by lia.
-    unfold src_get. rewrite Hq.
+    rewrite src_get_queue, Hq.
     destruct (skipn (length h) q0) as [|b q'] eqn:E; cbn [fst snd queue fdone crdd ctime deserialize].
     + split.
       * rewrite Hq. symmetry. apply skipn_all2.
@@ -296,8 +311,8 @@ Proof.
   - simpl. rewrite nth_error_map, Hg. simpl. eexists; split; [reflexivity|]. split; auto. congruence.
   - destruct IH as [s [Hs [Hq _]]].
     rewrite spec_hist_snoc, (tick_spec_src g env t _ i _ s Hwf Hg Hs).
-    eexists; split; [reflexivity|]. rewrite app_length. simpl.
-    unfold src_get. rewrite Hq.
+    eexists; split; [reflexivity|]. rewrite app_length. cbn [length queue crdd].
+    rewrite src_get_queue, Hq.
     destruct h as [|x h]; simpl.
     + destruct q0 as [|b q']; simpl; split; auto; intros _; destruct dflt; reflexivity.
     + split; [destruct (h ++ [(t, env)]) eqn:E; auto; destruct h; discriminate|].
